@@ -354,6 +354,13 @@ PPC_COLS = {
     ("branch", "RATE_A"): (MW, 6, {}), ("branch", "RATE_B"): (MW, 6, {}), ("branch", "RATE_C"): (MW, 6, {}),
     ("branch", "TAP"): ({}, 0, {}), ("branch", "SHIFT"): ({}, 0, {}),
     ("branch", "PF"): (MW, 6, {}), ("branch", "QF"): (MW, 6, {}), ("branch", "PT"): (MW, 6, {}), ("branch", "QT"): (MW, 6, {}),
+    # short-circuit columns (pandapower/pypower/idx_bus_sc.py): equivalent impedance in per unit, currents in kA, power in MVA
+    ("bus", "R_EQUIV"): ({}, 0, {"B": 1}), ("bus", "X_EQUIV"): ({}, 0, {"B": 1}),
+    ("bus", "R_EQUIV_OHM"): ({V: 1, A: -1}, 0, {}), ("bus", "X_EQUIV_OHM"): ({V: 1, A: -1}, 0, {}),
+    ("bus", "C_MIN"): ({}, 0, {}), ("bus", "C_MAX"): ({}, 0, {}), ("bus", "KAPPA"): ({}, 0, {}), ("bus", "M"): ({}, 0, {}),
+    ("bus", "IKSS1"): ({A: 1}, 3, {}), ("bus", "IKSS2"): ({A: 1}, 3, {}), ("bus", "IP"): ({A: 1}, 3, {}), ("bus", "ITH"): ({A: 1}, 3, {}),
+    ("bus", "SKSS"): (MW, 6, {}), ("bus", "V_G"): ({V: 1}, 3, {}), ("bus", "K_G"): ({}, 0, {}), ("bus", "K_SG"): ({}, 0, {}),
+    ("bus", "GS_P"): (MW, 6, {}), ("bus", "BS_P"): (MW, 6, {}), ("bus", "GS_GEN"): (MW, 6, {}), ("bus", "BS_GEN"): (MW, 6, {}),
 }
 
 
